@@ -520,12 +520,12 @@ int chk_fir(Report& rep, int N, int ord, int ox, int oy, int on, int cx, int cn,
     if (round % 3 == 2) for (size_t j = 0; j < (size_t)ord + N; j++) xb[j] = (short)(xb[j] / 2);
     else for (int j = 0; j < ord; j++) num[j] = (short)(num[j] / 2);
   }
-  // Finding F21: where x[i] + round(sum/4096) <= -32768 the C version returns -32767 (SATURATE(x, 32767) is symmetric)
+  // Finding C15F1: where x[i] + round(sum/4096) <= -32768 the C version returns -32767 (SATURATE(x, 32767) is symmetric)
   // and celt_fir_sse4_1 returns -32768 (packssdw).  The class is avoided by construction unless the finding is replayed.
   bool f21 = false;
   auto hits_min = [&]() { for (int i = 0; i < N; i++) { int64_t s = 0; for (int j = 0; j < ord; j++) s += (int64_t)num[j] * x[i - 1 - j]; if (x[i] + ((s + 2048) >> 12) <= -32768) return true; } return false; };
   if (hits_min()) {
-    if (rep.exclude("F21")) {
+    if (rep.exclude("C15F1")) {
       for (int round = 0; round < 20 && hits_min(); round++) {
         for (int j = 0; j < ord; j++) num[j] = (short)(num[j] / 2);
         for (int i = 0; i < N; i++) if (x[i] < -32767) x[i] = -32767;
@@ -701,16 +701,16 @@ void nsq_diff(Report& rep, const KernelView& k, nsq_fn real_c, const silk_encode
   for (size_t q = 0; q < im.size(); q++) {
     Out* o = outs[q];
     bool dp = memcmp(o->pul.p, pulses, fl) != 0, ds = memcmp(o->st.p, NSQ, sizeof(silk_nsq_state)) != 0, di = memcmp(&o->ind, psIndices, sizeof(SideInfoIndices)) != 0;
-    // Finding F22: two helpers of NSQ_del_dec_avx2.c do not reproduce the C arithmetic once the quantiser state has run away
+    // Finding C15F2: two helpers of NSQ_del_dec_avx2.c do not reproduce the C arithmetic once the quantiser state has run away
     // (all pulses at the +30/-31 limiter): silk_sar_round_smulww() scales the reconstructed sample with a 64-bit product
     // ("more correct ... won't overflow like the C code"; switched to the C formula only under OPUS_CHECK_ASM) while the C
     // code and the decoder wrap at 32 bits, and silk_mm_srai_round_epi32() rounds with (a+8)>>4, which wraps for the
     // saturated operand where silk_RSHIFT_ROUND() does not.  Both need values far beyond 16 bits, i.e. the AVX2 result
-    // holds a saturated output sample: that observable class is excluded (tools/proposed_fix_F22.diff repairs both).
+    // holds a saturated output sample: that observable class is excluded (tools/proposed_fix_C15F2.diff repairs both).
     bool f22 = false;
     if (im[q].fn == (void*)silk_NSQ_del_dec_avx2) for (int t = 0; t < psEncC->ltp_mem_length && !f22; t++) f22 = o->st.p->xq[t] >= 32767 || o->st.p->xq[t] <= -32768;
     if (f22) rep.label("silk_NSQ_del_dec:avx2-output-saturated");
-    if ((dp || ds || di) && f22 && rep.exclude("F22")) { rep.label("silk_NSQ_del_dec:avx2-saturated-mismatch-excluded"); delete o; continue; }
+    if ((dp || ds || di) && f22 && rep.exclude("C15F2")) { rep.label("silk_NSQ_del_dec:avx2-saturated-mismatch-excluded"); delete o; continue; }
     if (dp || ds || di) {
       int fp = 0; while (fp < fl - 1 && o->pul[fp] == pulses[fp]) fp++;
       char fld[160] = "";
